@@ -639,7 +639,24 @@ def coord_values(w, sentinel, rnd, nrand):
                 vals.add((sgn * deg * unit + d) & mx)
     for _ in range(nrand):
         vals.add(rnd.getrandbits(w))
+    vals |= cross_constants(w)
     return sorted(vals)
+
+
+# every 'not available' code and saturation value of ANY field, tried on EVERY field (masked to its width):
+# a sentinel test that leaks from one field / resolution into another shows up here
+CONSTS = [108600000, 54600000, 108600, 54600, 1023, 1022, 3600, 3601, 511, 510, 4095, 4094, 63, 62, 60, 61, 59, 128, 127,
+          181, 91, 180, 90, 360, 359, 24, 25, 31, 15, 14]
+
+
+def cross_constants(w):
+    mx = (1 << w) - 1
+    out = set()
+    for c in CONSTS:
+        for d in (-1, 0, 1):
+            out.add((c + d) & mx)
+            out.add((-c + d) & mx)
+    return out
 
 
 def fam_coords(tier):
@@ -718,6 +735,7 @@ def fam_sentinel(tier):
                           | {rnd.getrandbits(w) for _ in range(256 if thorough else 64)}
                           | ({(54600000 + d) & mx for d in (-600000, -1, 0, 1)} if w == 27 else set())
                           | ({(90 * 600000 + d) & mx for d in (0, 1, 599999)} if w == 27 else set()))
+        vals = sorted(set(vals) | cross_constants(w))
         nbits = 160 if t == 15 else shape_of(t)[1]
         for v in vals:
             buf = enc.BitBuf(nbits, rnd=rnd)
